@@ -149,6 +149,11 @@ class ShortOp(Op):
 
         value = copy.deepcopy(self.value.eval(state))
 
+        try:
+            state.names[self.name]
+        except LookupError:
+            raise ParserError(f'Undefined variable {self.name}')
+
         if self.op == '+=':
             state.names[self.name] += value
         elif self.op == '-=':
